@@ -176,11 +176,15 @@ def run(tier, v):
 
     if tier == "thorough":
         def mut(rows):
-            k = next(i for i, r_ in enumerate(rows) if any(x not in (0, "0", None, [], "none") for x in r_["out"]))
-            r_ = json.loads(json.dumps(rows[k]))
-            j = next(i for i, x in enumerate(r_["out"]) if x not in (0, "0", None, [], "none"))
-            r_["out"] = r_["out"][:j] + r_["out"][j + 1:] + [r_["out"][j]] if j + 1 < len(r_["out"]) else [r_["out"][j]] + r_["out"][:j]
-            return rows[:40] + [r_], "one report is attributed to another segment of its connection"
+            # a connection without sequence wrap: the report of the segment that completes a head is withheld
+            # (moving it to an earlier segment instead would read as the recorded deviation D09_no_contiguity, not as a rejection)
+            for r0 in rows:
+                if r0["conn"]["wrap"]["c"] != -1 or r0["conn"]["wrap"]["s"] != -1 or "ok" not in r0["out"]:
+                    continue
+                r_ = json.loads(json.dumps(r0))
+                r_["out"][r_["out"].index("ok")] = "none"
+                return rows[:40] + [r_], "the report of the segment that completes a message head is withheld"
+            return rows[:1], "no suitable row"
         v.binding.append(vlib.binding_demo("TV_C09", trace, mut, PID, workers=4, timeout=900, heap="4g"))
     for b in r2.lines.get("BAD", []):
         row = rows[b["id"]]
